@@ -43,6 +43,7 @@ class C05Monitor(simfarm.Monitor):
             return
         self.s0 = sim.snapshot()
         self.job_in_que = any(j.tag == msg.jobid for j in sim.sch.que)
+        self.que0 = {j.tag for j in sim.sch.que}
         self.org0 = sum(1 for ln in sim.log if ln[0] in ('organize', 'updates'))
         self.ch0 = len(sim.chron_appended)
 
@@ -111,6 +112,16 @@ class C05Monitor(simfarm.Monitor):
                         f'{x}[{t}] failed: {n} does not depend on it but its {nm} lost {sorted(lost)}',
                     )
                     return
+        # pending / executing work that is unchanged must also stay tracked: a node that still has
+        # targets pending or executing may not drop out of the work queue (its replies would be lost)
+        que1 = {j.tag for j in sim.sch.que}
+        for n in sorted(s1):
+            if n in self.que0 and n not in que1 and (s1[n][0] or s1[n][1]):
+                sim.violation(
+                    'remaining-work-stays-queued',
+                    f'{x}[{t}] {msg_status(msg)}: {n} left the work queue although it still has pending={sorted(s1[n][0])} executing={sorted(s1[n][1])}',
+                )
+                return
         org = sum(1 for ln in sim.log if ln[0] in ('organize', 'updates')) - self.org0
         if org:
             sim.violation('no-dependent-triggered', f'{x}[{t}] {msg_status(msg)}: organize/update called {org}x')
